@@ -339,6 +339,8 @@ def generate(repo, outdir):
     texts = {"Consts.v": emit_consts(C)}
     thr, raw, bias = load_tables(repo)
     texts["HllTables.v"] = emit_tables(thr, raw, bias)
+    import pytrans
+    texts["Kernels.v"] = pytrans.generate_kernels(repo)
     changed = []
     os.makedirs(outdir, exist_ok=True)
     for name, txt in texts.items():
